@@ -39,16 +39,25 @@ impl Clone for Pg {
 static ZERO_PAGE: [u8; PAGE_SIZE] = [0u8; PAGE_SIZE];
 
 fn fast_hash(b: &[u8]) -> (u64, u64) {
-    let mut h1: u64 = 0x243f6a8885a308d3;
-    let mut h2: u64 = 0x13198a2e03707344;
-    for c in b.chunks_exact(8) {
-        let w = u64::from_le_bytes(c.try_into().unwrap());
-        h1 = (h1 ^ w).wrapping_mul(0x9e3779b97f4a7c15);
-        h1 ^= h1 >> 29;
-        h2 = (h2.rotate_left(23) ^ w).wrapping_mul(0xc2b2ae3d27d4eb4f);
-        h2 ^= h2 >> 31;
+    // 4 independent multiply-rotate lanes over 32-byte blocks, folded into 128 bits
+    let mut h: [u64; 4] = [0x243f6a8885a308d3, 0x13198a2e03707344, 0xa4093822299f31d0, 0x082efa98ec4e6c89];
+    const K: [u64; 4] = [0x9e3779b97f4a7c15, 0xc2b2ae3d27d4eb4f, 0x165667b19e3779f9, 0xd6e8feb86659fd93];
+    for c in b.chunks_exact(32) {
+        for i in 0..4 {
+            let w = u64::from_le_bytes(c[i * 8..i * 8 + 8].try_into().unwrap());
+            h[i] = (h[i] ^ w).wrapping_mul(K[i]).rotate_left(27);
+        }
     }
-    (h1, h2)
+    let mix = |mut x: u64| {
+        x ^= x >> 33;
+        x = x.wrapping_mul(0xff51afd7ed558ccd);
+        x ^= x >> 33;
+        x = x.wrapping_mul(0xc4ceb9fe1a85ec53);
+        x ^ (x >> 33)
+    };
+    let a = mix(h[0] ^ mix(h[1].wrapping_add(0x9e3779b97f4a7c15)) ^ mix(h[2]).rotate_left(17) ^ mix(h[3]).rotate_left(41));
+    let d = mix(h[3].wrapping_add(K[0]) ^ mix(h[2] ^ K[1]).rotate_left(13) ^ mix(h[1] ^ K[2]).rotate_left(29) ^ mix(h[0] ^ K[3]).rotate_left(47));
+    (a, d)
 }
 
 #[derive(Clone)]
@@ -392,23 +401,21 @@ fn drain_check(st: &St, mode: Mode, class: &str, pre_gap: Option<i64>, ev: &mut 
     let limit = st.sto.page_count as usize + 4;
     let mut got: Vec<u32> = Vec::with_capacity(st.m.n_avail as usize + 2);
     let mut problem: Option<(&'static str, String)> = None;
-    loop {
-        if got.len() > limit {
-            problem = Some(("no-termination", format!("more than {limit} pages returned")));
-            break;
-        }
-        match vcore::catch(|| fl.allocate(&mut sto).map_err(|e| format!("{e:#}"))) {
-            Ok(Ok(Some(p))) => got.push(p),
-            Ok(Ok(None)) => break,
-            Ok(Err(e)) => {
-                problem = Some(("error", e));
-                break;
+    let r = vcore::catch(|| {
+        loop {
+            if got.len() > limit {
+                return Some(("no-termination", format!("more than {limit} pages returned")));
             }
-            Err(p) => {
-                problem = Some(("panic", p));
-                break;
+            match fl.allocate(&mut sto) {
+                Ok(Some(p)) => got.push(p),
+                Ok(None) => return None,
+                Err(e) => return Some(("error", format!("{e:#}"))),
             }
         }
+    });
+    match r {
+        Ok(p) => problem = p,
+        Err(p) => problem = Some(("panic", p)),
     }
     ev.drained_pages += got.len() as u64;
     // set comparison
@@ -461,7 +468,7 @@ fn drain_check(st: &St, mode: Mode, class: &str, pre_gap: Option<i64>, ev: &mut 
         Mode::Baseline | Mode::Tolerant => {
             if fc < d {
                 out.push(Viol { oracle: "count", sig: format!("C34/count/{class}/exact>under-reports"), expected: format!("free_count >= {d} (pages a drain returns)"), observed: format!("free_count = {fc}") });
-            } else if fc > d + over {
+            } else if mode == Mode::Tolerant && fc > d + over {
                 out.push(Viol { oracle: "count", sig: format!("C34/count/{class}/exact>over-reports-beyond-trunk-overhead"), expected: format!("free_count <= {d} + {over} trunk pages"), observed: format!("free_count = {fc}") });
             } else if mode == Mode::Baseline {
                 if let Some(g) = pre_gap {
@@ -820,10 +827,10 @@ struct Pass {
 fn passes(ctx: &Ctx) -> Vec<Pass> {
     let q = ctx.quick();
     vec![
-        Pass { mode: Mode::Strict, env: Env::Zero, depth_small: if q { 10 } else { 14 }, depth_big: 0 },
+        Pass { mode: Mode::Strict, env: Env::Zero, depth_small: if q { 10 } else { 16 }, depth_big: 0 },
         Pass { mode: Mode::Baseline, env: Env::Zero, depth_small: if q { 8 } else { 10 }, depth_big: if q { 6 } else { 8 } },
-        Pass { mode: Mode::Tolerant, env: Env::Zero, depth_small: if q { 10 } else { 15 }, depth_big: if q { 10 } else { 14 } },
-        Pass { mode: Mode::Tolerant, env: Env::Table, depth_small: if q { 8 } else { 10 }, depth_big: if q { 6 } else { 8 } },
+        Pass { mode: Mode::Tolerant, env: Env::Zero, depth_small: if q { 10 } else { 16 }, depth_big: if q { 9 } else { 13 } },
+        Pass { mode: Mode::Tolerant, env: Env::Table, depth_small: if q { 8 } else { 12 }, depth_big: if q { 6 } else { 8 } },
     ]
 }
 
@@ -866,8 +873,21 @@ impl Check for C34 {
         'outer: for pass in &ps {
             for def in &defs {
                 seed_idx += 1;
-                let big = def.releases > 16;
-                let depth = if big { pass.depth_big } else { pass.depth_small };
+                let big = def.releases.saturating_sub(def.then_alloc) > 16;
+                let mut depth = if big { pass.depth_big } else { pass.depth_small };
+                if let Some(s) = ctx.opt("seed") {
+                    if s != def.name {
+                        continue;
+                    }
+                }
+                if let Some(m) = ctx.opt("mode") {
+                    if m != pass.mode.name() || ctx.opt("env").map(|e| e != pass.env.name()).unwrap_or(false) {
+                        continue;
+                    }
+                }
+                if let Some(d) = ctx.opt("depth").and_then(|d| d.parse().ok()) {
+                    depth = d;
+                }
                 if pass.mode == Mode::Strict && def.releases > 0 {
                     // the construction history of every non-empty seed already diverges at its first release
                     if ctx.mine(seed_idx) {
